@@ -8,7 +8,8 @@ correspondence: in-process round trip: the REAL pcp_expand_dirs()+pcp_client() i
                 stream, the reply classes and the complete destination file system are compared with
                 `pdshmodel pcp rt` (sender model + receiver model)
                 several receivers in ONE process (rpdcp): K real pcp_server() calls as threads, all connections open at
-                once, input interleaved chunk-wise; replies per connection and the joint destination = one model run per
+                once, input interleaved chunk-wise, in half of the cases with two _error() calls forced to overlap (one
+                receiver parked between fdopen and errf until another has reported an error); replies per connection and the joint destination = one model run per
                 connection (theorems receivers_independent / receiver_alone state the product automaton)
 oracle:         (receivers are independent) the replies on each of the K connections equal those of the same real receiver
                 fed the same bytes alone in a process of its own;
@@ -807,7 +808,23 @@ def gen_multi(rng, k):
         c["conns"].append(dict(host=h, files=files, blocked=sorted(set(blocked)), dir=withdir,
                                dirblocked=withdir and i in errhosts and rng.random() < 0.5,
                                senddata=rng.random() < 0.1, overwrite=rng.random() < 0.2))
+    c["race"] = None
+    if len(errhosts) >= 2 and rng.random() < 0.5:
+        # forced interleaving of two _error() calls: receiver a is parked inside its first one until receiver b
+        # has been through one of its own
+        c["race"] = tuple(rng.sample(sorted(errhosts), 2))
     return c
+
+
+def multi_corpus(k0):
+    """pinned: two hosts, one refused file each; once plainly interleaved, once with overlapping _error() calls"""
+    out = []
+    for race in (None, (0, 1), (1, 0)):
+        conns = [dict(host=h, files=[(n, 20 + i, 0o644, 1234567890 + i, 7 * i + j) for i, n in enumerate((b"f1", b"f2", b"f3"))],
+                      blocked=[bl], dir=False, dirblocked=False, senddata=False, overwrite=False)
+                 for j, (h, bl) in enumerate(((b"h1", b"f1"), (b"h2", b"f2")))]
+        out.append(dict(k=k0 + len(out), multi=True, p=0, um=0o22, conns=conns, cut="records", race=race))
+    return out
 
 
 def multi_stream(c, cn):
@@ -851,7 +868,7 @@ def multi_ents(c):
 
 
 def multi_json(c):
-    return dict(multi=True, preserve=c["p"], umask="%o" % c["um"], cut=c["cut"],
+    return dict(multi=True, preserve=c["p"], umask="%o" % c["um"], cut=c["cut"], race=list(c["race"]) if c.get("race") else None,
                 conns=[dict(host=cn["host"].decode(), files=[[f[0].decode("latin-1")] + list(f[1:]) for f in cn["files"]],
                             blocked=[b.decode("latin-1") for b in cn["blocked"]], dir=cn["dir"],
                             dirblocked=cn["dirblocked"], senddata=cn["senddata"], overwrite=cn["overwrite"])
@@ -860,6 +877,7 @@ def multi_json(c):
 
 def multi_from_json(j, k):
     return dict(k=k, multi=True, p=int(j["preserve"]), um=int(j["umask"], 8), cut=j["cut"],
+                race=tuple(j["race"]) if j.get("race") else None,
                 conns=[dict(host=cn["host"].encode(), files=[tuple([f[0].encode("latin-1")] + f[1:]) for f in cn["files"]],
                             blocked=[b.encode("latin-1") for b in cn["blocked"]], dir=cn["dir"],
                             dirblocked=cn["dirblocked"], senddata=cn["senddata"], overwrite=cn["overwrite"])
@@ -883,8 +901,9 @@ def run_multi(ctx, exe, cases, cnt, var, cov, dist):
         pcp.build_jail(j, ents)
         c["jail"] = j
         streams = [multi_stream(c, cn) for cn in c["conns"]]
-        ops.append(["multi %s /%s %d 1 %o %d %s" % (j, CWD.decode(), c["p"], c["um"], len(streams), " ".join(
-            "%s %s" % (hx(b"dest"), ",".join(hx(x) for x in chunks)) for chunks in streams))])
+        ops.append(["multi %s /%s %d 1 %o %d %s %s" % (j, CWD.decode(), c["p"], c["um"], len(streams), " ".join(
+            "%s %s" % (hx(b"dest"), ",".join(hx(x) for x in chunks)) for chunks in streams),
+            "%d:%d" % c["race"] if c.get("race") else "-")])
         index.append((c, None))
         mc = dict(p=c["p"], y=1, um=c["um"], dest=b"dest", stream=b"")
         mlines.append(c12_model_line(mc, ents, cnt, var))
@@ -923,6 +942,30 @@ def run_multi(ctx, exe, cases, cnt, var, cov, dist):
         nerrconn = 0
         merged = dict(minit["fs"])
         bad = False
+        raced = bool(c.get("race")) and f.get("parked") == "1"
+        if raced:
+            dist["multi_overlapping_errors"] = dist.get("multi_overlapping_errors", 0) + 1
+            # the narrow class of F11-ERRFP-RACE: the parked receiver's first error record, and nothing else, has
+            # moved to the connection of the receiver that opened its reply stream last; all other replies are
+            # those of the receivers running alone
+            a = c["race"][0]
+            real = [pcp.unhx(f["r%d" % x]) for x in range(len(c["conns"]))]
+            solo = [pcp.unhx(res[c["k"]][x][0].get("replies", "-")) for x in range(len(c["conns"]))]
+            k1 = solo[a].find(b"\x01")
+            rec = solo[a][k1:solo[a].find(b"\n", k1) + 1] if k1 >= 0 else b""
+            others = [x for x in range(len(real)) if x != a and real[x] != solo[x]]
+            if rec and real[a] == solo[a][:k1] + solo[a][k1 + len(rec):] and len(others) == 1 and any(
+                    real[others[0]][:x] + real[others[0]][x + len(rec):] == solo[others[0]]
+                    for x in range(len(real[others[0]])) if real[others[0]].startswith(rec, x)):
+                b = others[0]
+                dist["multi_overlapping_errors_cross_routed"] = dist.get("multi_overlapping_errors_cross_routed", 0) + 1
+                ctx.offender("independent:overlapping-errors-cross-route",
+                             "two receivers of one process inside _error() at the same time (receiver %d parked after "
+                             "opening its reply stream while receiver %d opened its own): the record %r of host %s was "
+                             "written to the connection of host %s, its own peer got no answer" % (
+                                 a, b, rec, c["conns"][a]["host"].decode(), c["conns"][b]["host"].decode()),
+                             dict(cj, replies_a=repr(real[a][:200]), replies_b=repr(real[b][:200])))
+                continue
         for i, cn in enumerate(c["conns"]):
             fs_, crash_s, m = res[c["k"]][i]
             real = pcp.unhx(f["r%d" % i])
@@ -1033,11 +1076,16 @@ def run(ctx):
         cases += [gen_case(rng, len(cases) + i, ctx.quick()) for i in range(n)]
         for i in range(0, len(cases), 500):
             run_cases(ctx, exe, cases[i:i + 500], cnt, var, cov, dist, distinct)
+        mcases += multi_corpus(len(mcases))
         mcases += [gen_multi(rng, len(mcases) + i) for i in range(40 if ctx.quick() else 800)]
         for i in range(0, len(mcases), 200):
             run_multi(ctx, exe, mcases[i:i + 200], cnt, var, cov, dist)
-        ctx.log("receivers in one process: %d cases, %d with errors on >= 2 connections" % (
-            dist.get("multi_cases", 0), dist.get("multi_errors_on_2+_connections", 0)))
+        ctx.log("receivers in one process: %d cases, %d with errors on >= 2 connections, %d with two overlapping "
+                "_error() calls" % (dist.get("multi_cases", 0), dist.get("multi_errors_on_2+_connections", 0),
+                                    dist.get("multi_overlapping_errors", 0)))
+        dist["error_stream_variant"] = ("shared by all receivers of the process (static FILE *fp): overlapping _error() calls "
+                                        "cross-route" if dist.get("multi_overlapping_errors_cross_routed") else
+                                        "per call: overlapping _error() calls keep their own connection")
         if os.environ.get("VERIF_C11_E2E", "1") != "0":
             run_e2e(ctx, cov, dist)
     cov["distinct_nontrivial"] = len(distinct)
